@@ -24,7 +24,7 @@ def one(args):
     sid, tier, repo = args
     d = os.path.join(VERIF, "seeded", sid)
     meta = json.load(open(os.path.join(d, "meta.json")))
-    prop = meta["property"]
+    prop = meta.get("check", meta["property"])  # the check that detects it, when it is not the property the seed was written for
     tmp = tempfile.mkdtemp(prefix="seedsweep_")
     try:
         dst = os.path.join(tmp, "repo")
